@@ -172,6 +172,41 @@ CLAIMED = {
         "Trusted: Coq kernel + vm_compute; no axioms. sqrt enters as a pointwise spec hypothesis (a "
         "global one has no model over Q); AdaFactor is an optax oracle (norm/direction identity only).",
         "DESIGN.md 7/C05"),
+    "C04": (
+        "Coq proof (schedule automaton, induction over the step list) + bitwise changed/unchanged "
+        "classification of every state leaf through the public API",
+        "Theorems in Properties/C04.v for all intervals, start steps and horizons: the counter advances "
+        "by one; statistics are written exactly on multiples of the statistics interval and are "
+        "bit-identical otherwise; preconditioners and their metrics exactly on multiples of the "
+        "(scheduled, proved >= 1) preconditioner interval, computed from the statistics written at "
+        "that same step; closed forms of both version counters; the scheduled-interval formula is the "
+        "stated floor expression; warm-up boundary (step < start: grafting momentum update; >= start: "
+        "preconditioned) for the DS arithmetic blend and the Tearfree select; sharded mode uses the "
+        "preconditioners of the incoming state (one-step lag). Tie: Distributed Shampoo (replicated and "
+        "sharded), Tearfree Shampoo and Sketchy over a grid of (statistics interval, preconditioner "
+        "interval, start step), fixed and lr-scheduled; the automaton must predict the changed bit of "
+        "every leaf at every step; the schedule expression is compared value by value.",
+        "Trusted: Coq kernel + vm_compute; no axioms. Gradients are generic so that a refresh changes "
+        "the value (a refresh that reproduces identical bits would be misread as 'unchanged').",
+        "DESIGN.md 7/C04"),
+    "C13": (
+        "Coq proof (list model of pad / batch / per-replica map / all_gather / unbatch / firstn, "
+        "induction, for every device count and every number of statistics) + exhaustive correspondence "
+        "of batch/unbatch + cross-device runs on forced host devices",
+        "Theorems in Properties/C13.v for ALL D > 0, N, f: padding count is (-N) mod D (range, "
+        "divisibility, minimality); unbatch (batch xs) = xs; the distributed computation equals map f xs "
+        "on every device for every D, so any two device counts agree; padding entries are never "
+        "selected; position of each statistic in the (replica, slot) layout; the sharded padding "
+        "variant; squeeze on the batching axes only preserves value shapes (the old bare squeeze is "
+        "refuted for 1x1 values - fixed in /repo). Tie: real batch/unbatch on tagged arrays for all N <= "
+        "40, D <= 8 against the model; pmap on D forced host devices vs D = 1 with an elementwise "
+        "surrogate root (bitwise on every device) and with the real roots (tolerance), full / "
+        "int16-quantized / compressed; sharded variant across declared device counts.",
+        "Trusted: Coq kernel + vm_compute; no axioms. XLA collectives (all_gather, pmap) are modelled "
+        "as list operations and observed. With the real root kernels results across device counts "
+        "agree only to rounding (XLA fuses the statistics update differently per batch size): bitwise "
+        "equality is decided with a surrogate root, real-root runs are a tolerance monitor.",
+        "DESIGN.md 7/C13"),
 }
 
 NOT_YET = {}
